@@ -121,6 +121,12 @@ def t_grammar(T, tier, what):
                            rd_adapter(rd), X, C, witness_kind='filter_text')
         e, w = A.is_empty(ref_marked)
         ZR.oblige_fact(T, 'grammar/structure/cover.reference_language_nonempty', not e, kind='vacuity')
+    elif what == 'asgiven':
+        import ast
+        from hv.frontend import extract
+        src = ast.unparse(extract.module(FMOD).functions['parse_filter'])
+        ZR.oblige_fact(T, 'grammar/asgiven/parse_filter_parses_the_text_as_given(parseWithTabs: no tab expansion)_and_requires_the_whole_text(parseAll)',
+                       '.parseWithTabs()' in src and 'parseAll=True' in src)
     elif what == 'keywords':
         # keywords are whole words: a name that merely starts with a keyword is a name
         sem = rd.to_end(comp.compile_depth(rd.filter, budget, tags=rd.tags()))
